@@ -30,7 +30,7 @@ VERUS_UNITS = {
                     props=['C09', 'C03', 'C12', 'C15']),
     'U-MAIN-V': dict(module='contracts.verus.cli_main', min_verified=12, timeout=600,
                      props=['C14', 'C03', 'C15', 'C13', 'C16']),
-    'U-CAP-V': dict(module='contracts.verus.input_capture', min_verified=21, timeout=600,
+    'U-CAP-V': dict(module='contracts.verus.input_capture', min_verified=22, timeout=600,
                     native_search=dict(src='src/input.rs', file='capture_search.rs'),
                     props=['C09', 'C02', 'C04', 'C05', 'C12']),
 }
